@@ -277,21 +277,28 @@ class PathToken(TokenT):
     source: str = field(repr=False)
 
     def __str__(self) -> str:
+        return self._str()
+
+    def _str(self, *, nested: bool = False) -> str:
+        # Inside brackets a word is always a variable name, never a keyword.
         it = iter(self.path)
         root = next(it)
-        if isinstance(root, (PathToken, int)):
-            # The name of the root variable is itself the value of a variable, or
-            # an integer. Without brackets `[0]` would be the integer literal `0`.
+        if isinstance(root, PathToken):
+            # The name of the root variable is itself the value of a variable.
+            buf = [f"[{root._str(nested=True)}]"]
+        elif isinstance(root, int):
+            # Without brackets `[0]` would be the integer literal `0`.
             buf = [f"[{root}]"]
         elif isinstance(root, str) and (
-            not RE_PROPERTY.fullmatch(root) or root in _RESERVED_WORDS
+            not RE_PROPERTY.fullmatch(root)
+            or (not nested and root in _RESERVED_WORDS)
         ):
             buf = [f"[{_quote_segment(root)}]"]
         else:
             buf = [str(root)]
         for segment in it:
             if isinstance(segment, PathToken):
-                buf.append(f"[{segment}]")
+                buf.append(f"[{segment._str(nested=True)}]")
             elif isinstance(segment, str):
                 if RE_PROPERTY.fullmatch(segment):
                     buf.append(f".{segment}")
